@@ -195,6 +195,7 @@ pub trait Sut {
     fn pending(&self) -> (usize, usize, usize);
     fn snapshot(&self) -> Snapshot<Val>;
     fn estimate(&self, index: u64) -> i64;
+    fn doorkeeper_has(&self, index: u64) -> bool;
     fn window(&self) -> (usize, usize);
     fn metrics(&self) -> Option<MetricsView>;
     fn tracked(&self) -> usize;
@@ -416,6 +417,9 @@ impl Sut for SyncSut {
     }
     fn estimate(&self, index: u64) -> i64 {
         self.cache.verif_estimate(index)
+    }
+    fn doorkeeper_has(&self, index: u64) -> bool {
+        self.cache.verif_doorkeeper_has(index)
     }
     fn window(&self) -> (usize, usize) {
         self.cache.verif_window()
@@ -663,6 +667,9 @@ impl Sut for AsyncSut {
     }
     fn estimate(&self, index: u64) -> i64 {
         self.cache.verif_estimate(index)
+    }
+    fn doorkeeper_has(&self, index: u64) -> bool {
+        self.cache.verif_doorkeeper_has(index)
     }
     fn window(&self) -> (usize, usize) {
         self.cache.verif_window()
